@@ -1,0 +1,74 @@
+// Verification hooks; compiled only with `--cfg peginator_verif`.
+// Not part of the public API, never present in normal builds.
+
+use std::sync::atomic::{AtomicUsize, Ordering};
+
+/// Capacity of the fixed-size cache map used instead of `HashMap` under verification.
+pub const LINEAR_CACHE_CAPACITY: usize = 8;
+
+/// Fixed-capacity, heap-free stand-in for the `HashMap` behind `CacheEntries`.
+///
+/// Same `get` / `insert` contract as the map it replaces (finite map from offsets to values);
+/// exceeding the capacity is an assertion failure, never a silent drop.
+pub struct LinearCache<V> {
+    keys: [usize; LINEAR_CACHE_CAPACITY],
+    vals: [Option<V>; LINEAR_CACHE_CAPACITY],
+    len: usize,
+}
+
+impl<V> Default for LinearCache<V> {
+    fn default() -> Self {
+        Self {
+            keys: [0; LINEAR_CACHE_CAPACITY],
+            vals: [None, None, None, None, None, None, None, None],
+            len: 0,
+        }
+    }
+}
+
+impl<V> LinearCache<V> {
+    pub fn get(&self, key: &usize) -> Option<&V> {
+        let mut i = 0;
+        while i < self.len {
+            if self.keys[i] == *key {
+                return self.vals[i].as_ref();
+            }
+            i += 1;
+        }
+        None
+    }
+
+    pub fn insert(&mut self, key: usize, value: V) -> Option<V> {
+        let mut i = 0;
+        while i < self.len {
+            if self.keys[i] == key {
+                return self.vals[i].replace(value);
+            }
+            i += 1;
+        }
+        assert!(
+            self.len < LINEAR_CACHE_CAPACITY,
+            "peginator_verif: LinearCache capacity exceeded"
+        );
+        self.keys[self.len] = key;
+        self.vals[self.len] = Some(value);
+        self.len += 1;
+        None
+    }
+}
+
+pub static PRETTY_CALLS: AtomicUsize = AtomicUsize::new(0);
+pub static PRETTY_LINE_INDEX: AtomicUsize = AtomicUsize::new(0);
+pub static PRETTY_COLUMN_INDEX: AtomicUsize = AtomicUsize::new(0);
+pub static PRETTY_LINE_START: AtomicUsize = AtomicUsize::new(0);
+pub static PRETTY_LINE_LEN: AtomicUsize = AtomicUsize::new(0);
+
+/// Publishes the location computed by `PrettyParseError::from_parse_error`
+/// (0-based line, 0-based column in characters, byte offset of the line start, byte length of the line).
+pub fn observe_pretty_location(line: usize, column: usize, line_start: usize, line_len: usize) {
+    PRETTY_CALLS.fetch_add(1, Ordering::Relaxed);
+    PRETTY_LINE_INDEX.store(line, Ordering::Relaxed);
+    PRETTY_COLUMN_INDEX.store(column, Ordering::Relaxed);
+    PRETTY_LINE_START.store(line_start, Ordering::Relaxed);
+    PRETTY_LINE_LEN.store(line_len, Ordering::Relaxed);
+}
